@@ -8,6 +8,9 @@ W=$(mktemp -d /tmp/vseed-XXXXXX); rmdir "$W"
 git -C /repo worktree add --detach -q "$W" HEAD || exit 3
 cleanup(){ git -C /repo worktree remove --force "$W" >/dev/null 2>&1; rm -rf "$W"; git -C /repo worktree prune; }
 trap cleanup EXIT
+if [ -n "${SKIP_CONFIRM:-}" ]; then
+  git -C "$W" apply "$S/patch.diff" || { echo "PATCH DOES NOT APPLY"; exit 3; }
+else
 DEMO=$(cat "$S/DEMO_PATH.txt" | tr -d '\n ')
 cp "$S/zz_seed_demo_test.go" "$W/$DEMO"
 PKG=./$(dirname "$DEMO")
@@ -21,7 +24,8 @@ cp "$S/zz_seed_demo_test.go" "$W/$DEMO"
 echo "== demo WITH the change (must fail)"
 ( cd "$W" && GOPROXY=off go test -vet=off -count=1 -run 'Seed|seed|Demo' "$PKG" 2>&1 | tail -4 )
 rm "$W/$DEMO"
+fi
 for c in "$@"; do
   echo "== check $c against the change"
-  ( cd /verif && VERIF_REPO="$W" ./run "$c" quick 2>&1 | grep -E "VIOLATION|OK prop|INCONCLUSIVE|KNOWN" | head -3 )
+  ( cd /verif && VERIF_REPO="$W" ./run "$c" quick 2>&1 | grep -E "^VIOLATION|^OK prop|INCONCLUSIVE|^KNOWN|\[C[0-9]+/" | cut -c1-420 | awk '/^VIOLATION/{v++; if(v>3)next} /stats.go/{k++; if(k>2)next} {print}' | head -8 )
 done
